@@ -198,6 +198,9 @@ class C09(Check):
     PID = "C09"
     HEADER = "From Verif Require Import C09.Model."
     RUN = "run_case"
+    # the methods generated from telomere.py (coq/gen/Gen_C09_impl.v) are run on the same histories
+    HEADER2 = "From Verif Require Import C09.Model gen.Gen_C09_impl C09.GenOk."
+    RUN2 = "grun_case"
     N_QUICK = 1400
     N_THOROUGH = 20000
     RULE = ("configurations max_operations 1..12, error_threshold 1..4, renewal on/off, lifetime limit off/3..30 s, idle limit "
@@ -228,8 +231,10 @@ class C09(Check):
     LEVEL_NOTE = ("Trusts: Coq kernel+VM; the correspondence harness; the ast translator of the lock structure; `with lock` "
                   "semantics of CPython; user callbacks do not re-enter the lifecycle. Axioms: none (Print Assumptions: closed "
                   "under the global context).")
-    TECHNIQUE = ("Coq proof by case analysis + invariant/potential induction over histories; ast translator + reflective check of "
-                 "the lock call graph; vm_compute correspondence against Telomere on a virtual clock with a watchdog per call")
+    TECHNIQUE = ("Coq proof by case analysis + invariant/potential induction over histories; source-to-Gallina translation of all "
+                 "twelve Telomere methods (translators/pyimp.py, effects shape) proved equal to the model's step on every state, "
+                 "configuration and operation (c09_gen_*); ast translator + reflective check of the lock call graph; vm_compute "
+                 "correspondence against Telomere on a virtual clock with a watchdog per call")
     TRUSTED = ["translator harness/c09.py:lock_structure (Python ast -> lock kind + call graph, fail closed)",
                "modelled not verified: `with self._lock` gives mutual exclusion and a non-reentrant Lock blocks its own holder; "
                "on_phase_change/on_senescence callbacks return and do not call back into the lifecycle",
